@@ -77,6 +77,7 @@ func (c11Checker) Meta() CheckerMeta {
 var c11Dirs = []string{"", "a/", "a/b/", "c/"}
 
 var canaryDir string
+var c11TreeSeq int
 
 // ensureCanary puts real files named like the virtual ones (content CANARY) into a
 // temp dir and makes it the working directory: anything that reads the OS file
@@ -85,8 +86,9 @@ func ensureCanary() error {
 	if canaryDir != "" {
 		return nil
 	}
-	d, err := os.MkdirTemp("", "c11canary-")
-	if err != nil {
+	d := filepath.Join(os.TempDir(), fmt.Sprintf("c11canary-%07d", os.Getpid()%10000000))
+	os.RemoveAll(d)
+	if err := os.MkdirAll(d, 0o755); err != nil {
 		return err
 	}
 	for _, dir := range c11Dirs {
@@ -172,9 +174,9 @@ func c11WriteName(g *Tape, sp *c11Spec, s, t string, lazyRootedOnly bool) (strin
 		return rel, flavour
 	case "local":
 		if lazyRootedOnly || g.Draw(3) == 0 {
-			return path.Join(sp.Root, t), "rooted"
+			return t, "rooted" // t is already absolute for this kind
 		}
-		rel, _ := filepath.Rel("/"+path.Dir(s), "/"+t)
+		rel, _ := filepath.Rel(path.Dir(s), t)
 		if strings.HasPrefix(rel, "..") {
 			flavour = "dotdot"
 		}
@@ -671,8 +673,11 @@ func (c11Checker) Run(tp *Tapes, opt RunOpt) *Outcome {
 	sp := c11Gen(tp)
 	isLocal := sp.Kind == "local" || sp.Kind == "localbase"
 	if isLocal {
-		root, err := os.MkdirTemp("", "c11tree-")
-		if err != nil {
+		// fixed-width name: the directory name ends up in error positions (columns)
+		c11TreeSeq++
+		root := filepath.Join(os.TempDir(), fmt.Sprintf("c11tree-%07d-%07d", os.Getpid()%10000000, c11TreeSeq%10000000))
+		os.RemoveAll(root)
+		if err := os.MkdirAll(root, 0o755); err != nil {
 			out.HarnessErr = err.Error()
 			return out
 		}
